@@ -97,6 +97,7 @@ def make_texts(r, m, n=3):
     sm = spec.Sampler(r, m.rules, m.super_rules)
     out = list(getattr(m, 'fixed_texts', None) or [])
     for _ in range(0 if out else n):
+        sm.budget = 4000
         toks = sm.item(m.start, 0)
         t = spec.join_tokens(r, toks, m.gaps)
         if len(t) > 60:
@@ -106,6 +107,7 @@ def make_texts(r, m, n=3):
     if m.gaps and r.random() < 0.2:
         toks = []
         for _ in range(8):
+            sm.budget = 1000
             toks += sm.item(m.start, 0)
         out.append(spec.join_tokens(r, toks, m.gaps + ['\n'])[:400])
     fam = []
